@@ -1,0 +1,60 @@
+//go:build verif
+
+package quotaresource
+
+// Verification shims for property C01 (fixed-window quotas). Exporting only:
+// they give the harness access to the per-key bodies quota.Inc / quota.Allowed /
+// quota.Dec of the group object a request maps to, i.e. one level of
+// fixedWindow.Inc / Allowed / Dec without the walk to the parent, so that
+// interleavings inside a parent/child walk can be replayed deterministically.
+
+import (
+	publicTypes "lunar/engine/streams/public-types"
+)
+
+func verifC01Quota(res publicTypes.QuotaResourceI, s publicTypes.APIStreamI) (*quota, bool) {
+	fw, ok := res.(*fixedWindow)
+	if !ok {
+		return nil, false
+	}
+	q, err := fw.getQuota(s)
+	if err != nil {
+		return nil, false
+	}
+	return q, true
+}
+
+// VerifC01KeyInc returns "already" | "increased" | "blocked" (incResult of quota.Inc).
+func VerifC01KeyInc(res publicTypes.QuotaResourceI, s publicTypes.APIStreamI) (string, bool) {
+	q, ok := verifC01Quota(res, s)
+	if !ok {
+		return "", false
+	}
+	switch q.Inc(s) {
+	case alreadyIncreased:
+		return "already", true
+	case increased:
+		return "increased", true
+	case blocked:
+		return "blocked", true
+	default:
+		return "other", true
+	}
+}
+
+func VerifC01KeyAllowed(res publicTypes.QuotaResourceI, s publicTypes.APIStreamI) (bool, bool) {
+	q, ok := verifC01Quota(res, s)
+	if !ok {
+		return false, false
+	}
+	return q.Allowed(s), true
+}
+
+func VerifC01KeyDec(res publicTypes.QuotaResourceI, s publicTypes.APIStreamI) bool {
+	q, ok := verifC01Quota(res, s)
+	if !ok {
+		return false
+	}
+	q.Dec(s)
+	return true
+}
